@@ -266,7 +266,7 @@ class Analyzer:
                     return meet(parts)
         # caller-supplied partial entries (documented precondition)
         if op in ("dval",) and t.args[0].op == "param" and t.args[0].args[0] in self.assumed_params:
-            return Facts(True, True, UNK, ("assumed", t.args[0]), ["caller-supplied entries"], assumed=["row ids passed in '%s' are strictly increasing and within range (documented precondition)" % t.args[0].args[0]])
+            return Facts(True, False, UNK, ("assumed", t.args[0]), ["caller-supplied entries (may be empty: set_if exists to drop those)"], assumed=["row ids passed in '%s' are strictly increasing and within range (documented precondition)" % t.args[0].args[0]])
         if op == "param" and t.args[0] in self.assumed_params:
             return Facts(True, False, UNK, ("assumed", t), ["caller-supplied value"], assumed=["row ids passed in '%s' are strictly increasing and within range (documented precondition)" % t.args[0]])
         if op == "comp" and t.args[0] in ("list", "gen"):
